@@ -398,7 +398,7 @@ type c12SeqCase struct {
 func c12Seq(c *Ctx, up *world.Upstream) {
 	n := 0
 	for _, store := range []string{"cookie", "redis"} {
-		for _, beh := range []string{"rotate", "refresh-fails", "no-refresh-token"} {
+		for _, beh := range []string{"rotate", "rotate-no-id-token", "refresh-fails", "no-refresh-token"} {
 			for _, idt := range []string{"valid", "expired", "other-key"} {
 				for _, age := range []string{"fresh", "stale", "stale-by-1s"} {
 					n++
@@ -418,6 +418,10 @@ func c12SeqOne(c *Ctx, up *world.Upstream, cs c12SeqCase) {
 	idp := world.NewIdP()
 	if cs.Behaviour == "no-refresh-token" {
 		idp.NoRefreshToken = true
+	}
+	if cs.Behaviour == "rotate-no-id-token" {
+		// refresh answers carry new access and refresh tokens but no ID token (legal: OIDC Core 12.2)
+		idp.NoIDTokenOnRefresh = true
 	}
 	cfg := &ProxyCfg{Flags: append(baseFlags(up.URL()), "--email-domain=*", "--cookie-secure=false", "--cookie-refresh=1m", "--cookie-expire=1h", "--pass-access-token=true")}
 	if cs.Store == "redis" {
@@ -493,6 +497,9 @@ func c12SeqOne(c *Ctx, up *world.Upstream, cs c12SeqCase) {
 	case cs.Behaviour == "rotate":
 		// the refresh replaces the ID token with a fresh valid one
 		mustServe = true
+	case cs.Behaviour == "rotate-no-id-token":
+		// the refresh succeeds but the stored ID token stays: re-validation decides
+		mustServe, mustRefuse = idOK, !idOK
 	default:
 		mustServe, mustRefuse = idOK, !idOK
 	}
@@ -509,7 +516,7 @@ func c12SeqOne(c *Ctx, up *world.Upstream, cs c12SeqCase) {
 	if mustServe && !served {
 		c.Violate("C12/seq-valid-session-refused", fmt.Sprintf("%+v: %s", cs, cs.Observed), 1, cs)
 	}
-	if stale && served && cs.Behaviour == "rotate" {
+	if stale && served && (cs.Behaviour == "rotate" || cs.Behaviour == "rotate-no-id-token") {
 		if !refreshed {
 			c.Violate("C12/seq-stale-session-honoured-without-refresh", fmt.Sprintf("%+v: served although the provider saw no successful refresh grant (%s)", cs, cs.Observed), 1, cs)
 		} else if tok := hits[0].Header.Get("X-Forwarded-Access-Token"); tok == oldAT {
@@ -521,6 +528,22 @@ func c12SeqOne(c *Ctx, up *world.Upstream, cs c12SeqCase) {
 			h2 := up.Take()
 			if r2.Status != 200 || len(h2) != 1 || h2[0].Header.Get("X-Forwarded-Access-Token") != tok || idp.Grants != g {
 				c.Violate("C12/seq-refreshed-session-not-stored", fmt.Sprintf("%+v: follow-up request status %d, grants +%d", cs, r2.Status, idp.Grants-g), 1, cs)
+			} else {
+				// a second refresh cycle: the session must hold the ROTATED refresh token, so the
+				// provider (single-use tokens, reuse revokes the family) grants again and the
+				// request carries yet newer tokens
+				world.Advance(2 * time.Minute)
+				r3 := b.Get("/app")
+				h3 := up.Take()
+				c.Inc("seq_second_refresh_cycles")
+				switch {
+				case r3.Status != 200 || len(h3) != 1:
+					c.Violate("C12/seq-second-refresh-fails", fmt.Sprintf("%+v: the second refresh cycle was answered %d (grants now %d): the session did not keep the tokens of the first refresh", cs, r3.Status, idp.Grants), 2, cs)
+				case idp.Grants != g+1:
+					c.Violate("C12/seq-second-refresh-fails", fmt.Sprintf("%+v: second stale request served without a successful refresh grant (grants %d -> %d)", cs, g, idp.Grants), 2, cs)
+				case h3[0].Header.Get("X-Forwarded-Access-Token") == tok || h3[0].Header.Get("X-Forwarded-Access-Token") == oldAT:
+					c.Violate("C12/seq-served-with-stale-token", fmt.Sprintf("%+v: second refresh cycle reached the upstream with an older access token", cs), 2, cs)
+				}
 			}
 		}
 	}
